@@ -12,9 +12,36 @@ type (
 	WaitGroup = simrt.WaitGroup
 	Once      = simrt.Once
 	Cond      = simrt.Cond
-	Pool      = real.Pool
 	Locker    = real.Locker
 	Map       = real.Map
 )
 
 func NewCond(l Locker) *Cond { return simrt.NewCond(l) }
+
+// Pool: a deterministic sync.Pool. The real one keeps per-P caches and drops
+// items at garbage collections - which item Get returns would not replay. This
+// one always hands back the item that was Put last (the behaviour of the real
+// pool on one P between two collections, and the one under which a buffer that
+// is still in use after its Put is re-used soonest).
+type Pool struct {
+	New   func() any
+	items []any
+}
+
+func (p *Pool) Get() any {
+	if n := len(p.items); n > 0 {
+		x := p.items[n-1]
+		p.items = p.items[:n-1]
+		return x
+	}
+	if p.New != nil {
+		return p.New()
+	}
+	return nil
+}
+
+func (p *Pool) Put(x any) {
+	if x != nil {
+		p.items = append(p.items, x)
+	}
+}
